@@ -206,11 +206,12 @@ def gen_c03(tier, rng):
     return s
 
 def gen_long_window(tier):
-    """one event per tick for n ticks (interval 1): hundreds (thorough: thousands) of buckets in the reservoir, all of them
+    """one event per tick for n ticks (interval 1): hundreds of buckets in the reservoir, all of them
     expiring in ONE roll after a gap longer than the window; judged by the reference window of the driver (the model replay of
     such a script is quadratic in time and memory: not replayed)"""
     out = []
-    for n, window, jump in ([(700, 2000, 10 ** 6)] if tier == "quick" else [(700, 2000, 10 ** 6), (1500, 2000, 10 ** 6), (4300, 100000, 10 ** 7)]):
+    # larger scripts (1 500 / 6 000 buckets) run in the volume harness: here a run prints one token per access
+    for n, window, jump in [(700, 2000, 10 ** 6)]:
         ticks = [0] + list(range(1, n + 1)) + [jump, jump + 1]
         ops = ["ws" if i % 3 else "wf" for i in range(n)] + ["wf", "wc"]
         out.append(conc.Scn("lw%d" % n, "window", ticks, [ops], "dfs 0 1", cfg_opts(window=window, interval=1, maxsteps=400000000, nomodel=1)))
